@@ -17,7 +17,7 @@ func init() { register(genMcu) }
 //   - which methods release the MCU objects and that a release bumps the generation,
 //   - the shape of the permission-revocation sweep in processAsyncMessage.
 func genMcu(c *ctx) *leanFile {
-	l := c.newLean("Mcu", "clientsession.go", "mcu_janus.go", "mcu_common.go", "session.go")
+	l := c.newLean("Mcu", "clientsession.go", "mcu_janus.go", "mcu_janus_publisher.go", "mcu_janus_subscriber.go", "mcu_common.go", "session.go")
 	cs := c.file("clientsession.go")
 	janus := c.file("mcu_janus.go")
 	common := c.file("mcu_common.go")
@@ -83,6 +83,68 @@ func genMcu(c *ctx) *leanFile {
 	}
 	l.boolean("janusRejectsOtherStreams", rejects("NewPublisher") && rejects("NewSubscriber"), findFunc(janus, "mcuJanus", "NewPublisher") != nil && findFunc(janus, "mcuJanus", "NewSubscriber") != nil,
 		"mcu_janus.go: NewPublisher / NewSubscriber not found")
+
+	// ---- Janus: a publisher's room is destroyed when the publisher is closed and when joining it failed
+	hasDestroy := func(n ast.Node) bool {
+		found := false
+		ast.Inspect(n, func(m ast.Node) bool {
+			if kv, ok := m.(*ast.KeyValueExpr); ok {
+				k, ok1 := strLit(kv.Key)
+				v, ok2 := strLit(kv.Value)
+				if ok1 && ok2 && k == "request" && v == "destroy" {
+					found = true
+				}
+			}
+			return true
+		})
+		return found
+	}
+	callsMethod := func(n ast.Node, method string) bool {
+		found := false
+		ast.Inspect(n, func(m ast.Node) bool {
+			if call, ok := m.(*ast.CallExpr); ok {
+				if sel, ok := call.Fun.(*ast.SelectorExpr); ok && sel.Sel.Name == method {
+					found = true
+				}
+			}
+			return true
+		})
+		return found
+	}
+	joinCleanup, okJoin := false, false
+	if fd := findFunc(janus, "mcuJanus", "getOrCreatePublisherHandle"); fd != nil && fd.Body != nil {
+		// response, err := handle.Message(ctx, msg, nil); if err != nil { … }
+		for i, st := range fd.Body.List {
+			as, ok := st.(*ast.AssignStmt)
+			if !ok || len(as.Rhs) != 1 {
+				continue
+			}
+			call, ok := as.Rhs[0].(*ast.CallExpr)
+			if !ok {
+				continue
+			}
+			sel, ok := call.Fun.(*ast.SelectorExpr)
+			if !ok || !isIdent(sel.X, "handle") || sel.Sel.Name != "Message" || i+1 >= len(fd.Body.List) {
+				continue
+			}
+			if is, ok := fd.Body.List[i+1].(*ast.IfStmt); ok {
+				okJoin = true
+				joinCleanup = hasDestroy(is.Body) && callsMethod(is.Body, "Request") && callsMethod(is.Body, "Detach")
+			}
+		}
+	}
+	l.boolean("janusJoinFailureDestroysRoom", joinCleanup, okJoin,
+		"mcu_janus.go: getOrCreatePublisherHandle: `… := handle.Message(ctx, msg, nil); if err != nil {…}` not found")
+	pubFile := c.file("mcu_janus_publisher.go")
+	subFile := c.file("mcu_janus_subscriber.go")
+	pubClose := findFunc(pubFile, "mcuJanusPublisher", "Close")
+	subClose := findFunc(subFile, "mcuJanusSubscriber", "Close")
+	l.boolean("janusPublisherCloseDestroysRoom",
+		pubClose != nil && hasDestroy(pubClose) && callsMethod(pubClose, "closeClient") && callsMethod(pubClose, "PublisherClosed"),
+		pubClose != nil, "mcu_janus_publisher.go: (*mcuJanusPublisher).Close not found")
+	l.boolean("janusSubscriberCloseDetaches",
+		subClose != nil && callsMethod(subClose, "closeClient") && callsMethod(subClose, "SubscriberClosed"),
+		subClose != nil, "mcu_janus_subscriber.go: (*mcuJanusSubscriber).Close not found")
 
 	// ---- programs of GetOrCreatePublisher / GetOrCreateSubscriber
 	isSelCall := func(e ast.Expr, recv, field, method string) bool {
